@@ -15,15 +15,27 @@ def run_mgr(ctx, prop):
     if not r.violation or "Quiesce" not in r.violation:
         raise vlib.MachineryError("as-coded scan no longer violates Quiesce in Manager.tla")
     detail.append({"cfg": "MC_Manager_ascoded.cfg", "must_violate": "Quiesce", "violated": True})
+    r = vlib.run_tlc(ctx.sc, "Manager", "MC_Manager_ascoded_sub.cfg", allow_violation=True, timeout=900)
+    if not r.violation or "Quiesce" not in r.violation:
+        raise vlib.MachineryError("subscribing without a second look at the children no longer violates Quiesce in Manager.tla")
+    detail.append({"cfg": "MC_Manager_ascoded_sub.cfg", "must_violate": "Quiesce", "violated": True})
     # role 2: environment schedules
     scheds = []
-    n_struct, n_write = (10, 6) if t == "quick" else (150, 100)
+    n_struct, n_write, n_kids = (10, 4, 6) if t == "quick" else (150, 60, 80)
     if prop == "C08":
-        n_struct, n_write = (4, 12) if t == "quick" else (50, 200)
-    for cfg, n in (("Gen_ManagerEnv.cfg", n_struct), ("Gen_ManagerEnvWrite.cfg", n_write)):
+        n_struct, n_write, n_kids = (4, 12, 2) if t == "quick" else (50, 200, 20)
+    for cfg, n in (("Gen_ManagerEnv.cfg", n_struct), ("Gen_ManagerEnvWrite.cfg", n_write),
+                   ("Gen_ManagerEnvKids.cfg", n_kids)):
         g = vlib.run_tlc(ctx.sc, "MC_ManagerEnv", cfg, collect_json=True, workers=1, simulate=n, depth=30,
                          seed=ctx.seed, timeout=3000)
         scheds += diverse(g.lines, n, seed=ctx.seed)
+    if getattr(ctx, "replay", None):
+        # replaying a recorded violation: the failing schedules themselves, several times each
+        # (what the manager does with a schedule depends on goroutine timing)
+        rp = json.load(open(ctx.replay))
+        rs = [c["case"]["schedule"] for c in rp.get("cases", []) if c.get("case", {}).get("schedule")]
+        if rs:
+            scheds = [x for x in rs[:4] for _ in range(16)]
     p = ctx.sc.path("mgr.jsonl")
     with open(p, "w") as f:
         for s in scheds:
@@ -82,35 +94,8 @@ def run_mgr(ctx, prop):
     return cov, keep
 
 
-def construct_in_flight(prefix):
-    """Input class of the known finding C07/construct-races-change: the newest Construct of some
-    placement was logged while a child add/remove for its node was in flight (between the
-    driver's OpStart and OpAck), i.e. the manager read the node's children and subscribed to
-    its updates around the change."""
-    evs = [json.loads(x) for x in prefix]
-    last_construct = {}
-    inflight = None
-    hit = set()
-    for e in evs:
-        k = e.get("ev")
-        if k == "OpStart":
-            inflight = e
-        elif k == "OpAck":
-            inflight = None
-        elif k == "Construct":
-            last_construct[e["key"]] = e
-            hit.discard(e["key"])
-            if inflight is not None and inflight.get("k") in ("mkkid", "delkid") and e["key"].endswith("-" + inflight.get("p", "")):
-                hit.add(e["key"])
-        elif k == "RunExit":
-            hit.discard(e.get("key"))
-    return bool(hit)
-
-
 def classify(ev, prefix):
     e = ev.get("ev")
-    if e == "Quiescent" and construct_in_flight(prefix):
-        return "construct-races-change"
     if e in ("Points", "EdgePoints"):
         return "delivery"
     if e == "Quiescent":
